@@ -5,6 +5,7 @@ mod gast;
 mod gen;
 mod genvalid;
 mod jobs;
+mod op_misc;
 mod op_trace;
 mod op_validate;
 mod render;
